@@ -46,11 +46,13 @@ def make_list(rng, fmt):
     base = {}
     for e in ens:
         nrep = int(rng.integers(1, 4))
+        bare = nrep == 1 and rng.random() < 0.4          # the most common naming: one chain called like its ensemble, no separator at all
         for r in range(nrep):
-            base['%s|r%d' % (e, r + 1)] = gen.make_idl(rng, str(rng.choice(['contig', 'strided', 'irregular'])), int(rng.integers(6, 14)))
+            key = e if bare else '%s|r%d' % (e, r + 1)
+            base[key] = gen.make_idl(rng, str(rng.choice(['contig', 'strided', 'irregular'])), int(rng.integers(6, 14)))
             if rng.random() < 0.4:
                 # lists that agree in replica name, first configuration and length with those of other files of this session, and differ in between
-                base['%s|r%d' % (e, r + 1)] = gen.make_idl(rng, str(rng.choice(['contig', 'strided', 'irregular', 'gapped'])), 8, first=1)
+                base[key] = gen.make_idl(rng, str(rng.choice(['contig', 'strided', 'irregular', 'gapped'])), 8, first=1)
     kind = str(rng.choice(['real', 'real', 'ints', 'intmean']))
     covs = []
     if fmt == 'dobs' and rng.random() < 0.5:
@@ -72,6 +74,10 @@ def make_list(rng, fmt):
             idls = []
             for nm in names:
                 il = base[nm]
+                if fmt == 'pobs' and nobs > 1 and rng.random() < (0.1 if i == 0 else 0.15):
+                    # what the pobs format cannot hold (one configuration column per replica): the export has to refuse - whether the odd one
+                    # out is the first observable or a later one, shorter or of the same length on other configurations
+                    il = [c + 1 for c in il] if rng.random() < 0.4 else gen.sub_idl(rng, il, str(rng.choice(['prefix', 'suffix', 'random'])), nmin=5)
                 if fmt == 'dobs' and i > 0 and rng.random() < 0.5:
                     il = gen.sub_idl(rng, il, str(rng.choice(['prefix', 'suffix', 'stride', 'random'])), nmin=5)
                 idls.append(il)
